@@ -11,6 +11,18 @@ from nix_manipulator.expressions import NixSourceCode
 from nix_manipulator.parser import parse
 
 
+def _read_input(handle) -> str:
+    """Read the input verbatim so stdin and -f FILE see the same text.
+
+    A file opened by argparse translates CRLF to LF while stdin does not; go
+    through the byte buffer (when there is one) and decode UTF-8 ourselves.
+    """
+    buffer = getattr(handle, "buffer", None)
+    if buffer is None:
+        return handle.read()
+    return buffer.read().decode("utf-8")
+
+
 def _emit(text: str) -> None:
     """Write edited source, adding a line terminator only when it lacks one."""
     sys.stdout.write(text if text.endswith("\n") else text + "\n")
@@ -31,7 +43,7 @@ def main(args=None) -> int:
                 "NixSourceCode": NixSourceCode,
             }
             if args.file is not sys.stdin:
-                source_text = args.file.read()
+                source_text = _read_input(args.file)
                 if source_text:
                     shell_locals["source_text"] = source_text
                     shell_locals["source"] = parse(source_text)
@@ -41,7 +53,7 @@ def main(args=None) -> int:
             )
             return 0
         case "set":
-            source = parse(args.file.read())
+            source = parse(_read_input(args.file))
             _emit(
                 set_value(
                     source=source,
@@ -51,7 +63,7 @@ def main(args=None) -> int:
             )
             return 0
         case "rm":
-            source = parse(args.file.read())
+            source = parse(_read_input(args.file))
             _emit(
                 remove_value(
                     source=source,
@@ -60,7 +72,7 @@ def main(args=None) -> int:
             )
             return 0
         case "test":
-            original = args.file.read()
+            original = _read_input(args.file)
             source = parse(original)
             if source.contains_error:
                 print("Fail")
